@@ -390,7 +390,7 @@ func main() {
 		// vertex list in the same ordinate (x: a,b,a,.. y: b,a,b,..), open and
 		// closed, so that e.g. the first and last vertex differ only in the
 		// sign of a zero
-		if s.NPoints() >= 2 {
+		if s.NPoints() >= 2 && (tier != "thorough" || s.NPoints() <= 6) {
 			for _, a := range altPatterns {
 				for _, b := range altPatterns {
 					pair := make([]int, 2*s.NPoints())
